@@ -47,7 +47,76 @@ def families(facts):
         for fn, (lo, hi) in O.ARITY_TABLE.items():
             for n in range(lo, hi + 1):
                 fams.append(f"ormcall[{b}][{fn}/{n}]")
-    return fams + ["bounded.compile-pairs", "canary"]
+    return fams + ["cfg.compile-hooks", "bounded.compile-pairs", "canary"]
+
+
+CONTRACTED_SQL_METHODS = {("NotEqual", "as_sql")}       # text `lhs <> rhs`, parameters in placeholder order: C02 lookup[NotEqual.as_sql]
+DJANGO_RENDER_METHODS = ("as_sql", "as_sqlite", "as_postgresql", "as_mysql", "as_oracle", "process_lhs", "process_rhs", "get_rhs_op",
+                         "get_db_prep_lookup", "get_prep_lookup")
+
+
+def _is_passthrough(fn):
+    """body is `a, b = super().<same name>(...)` followed by `return a, b` (comments / docstring aside): renders nothing of its own"""
+    import ast as pyast
+    body = [st for st in fn.body if not (isinstance(st, pyast.Expr) and isinstance(st.value, pyast.Constant))]
+    if len(body) != 2 or not isinstance(body[0], pyast.Assign) or not isinstance(body[1], pyast.Return):
+        return False
+    a, r = body
+    call = a.value
+    ok_call = isinstance(call, pyast.Call) and isinstance(call.func, pyast.Attribute) and call.func.attr == fn.name and \
+        isinstance(call.func.value, pyast.Call) and isinstance(call.func.value.func, pyast.Name) and call.func.value.func.id == "super"
+    if not ok_call or len(a.targets) != 1 or not isinstance(a.targets[0], pyast.Tuple) or not isinstance(r.value, pyast.Tuple):
+        return False
+    names = [t.id for t in a.targets[0].elts if isinstance(t, pyast.Name)]
+    back = [t.id for t in r.value.elts if isinstance(t, pyast.Name)]
+    return len(names) == len(a.targets[0].elts) and names == back
+
+
+def compile_hooks(facts):
+    """Frame condition that carries the handler contracts to the SQL the ORM finally emits: the repository adds no compile-time
+    rendering of its own (SQLAlchemy `@compiles` hooks, Django `as_sql`-style methods) besides the contracted ones, and never asks
+    the ORM to inline bound values (`literal_binds` / `literal_execute`)."""
+    import ast as pyast
+    import glob
+    import os
+    root = facts.raw["repo_root"]
+    t0 = time.time()
+    inline, hooks = [], []
+    files = sorted(glob.glob(os.path.join(root, "odata_query", "sqlalchemy", "*.py")) + glob.glob(os.path.join(root, "odata_query", "django", "*.py")))
+    for f in files:
+        rel = os.path.relpath(f, root)
+        try:
+            tree = pyast.parse(open(f).read())
+        except SyntaxError as ex:
+            hooks.append(f"{rel}: not parseable ({ex})")
+            continue
+        for n in pyast.walk(tree):
+            if isinstance(n, pyast.keyword) and n.arg in ("literal_binds", "literal_execute") and \
+                    not (isinstance(n.value, pyast.Constant) and n.value.value in (False, None)):
+                inline.append(f"{rel}:{n.value.lineno} {n.arg}=...")
+            if isinstance(n, pyast.Name) and n.id == "compiles" or isinstance(n, pyast.Attribute) and n.attr == "compiles" or \
+                    isinstance(n, pyast.alias) and n.name == "compiles":
+                hooks.append(f"{rel}:{getattr(n, 'lineno', '?')} SQLAlchemy @compiles hook")
+            if isinstance(n, pyast.ClassDef):
+                for m in n.body:
+                    if isinstance(m, (pyast.FunctionDef, pyast.AsyncFunctionDef)) and (m.name in DJANGO_RENDER_METHODS or m.name == "_compiler_dispatch") \
+                            and (n.name, m.name) not in CONTRACTED_SQL_METHODS and not _is_passthrough(m):
+                        hooks.append(f"{rel}:{m.lineno} {n.name}.{m.name}")
+    out = []
+    name = "C08:odata_query.sqlalchemy+django:cfg.compile-hooks"
+    if inline:
+        from contracts.orm_native import ORM_NATIVE
+        out.append({"name": name + "[inline]", "clause": "cfg.compile-hooks", "status": "refuted", "seconds": time.time() - t0,
+                    "backend": "finite-check", "reason": "bound values are rendered into the SQL text at compile time: " + "; ".join(inline),
+                    "solver_output": "; ".join(inline), "native_script": ORM_NATIVE + PAIRS, "bound": "; ".join(inline)})
+    else:
+        out.append({"name": name + "[inline]", "clause": "cfg.compile-hooks", "status": "discharged", "seconds": time.time() - t0,
+                    "backend": "finite-check", "reason": f"no literal_binds / literal_execute request in {len(files)} backend files"})
+    out.append({"name": name + "[hooks]", "clause": "cfg.compile-hooks", "status": "discharged" if not hooks else "undecided",
+                "seconds": time.time() - t0, "backend": "finite-check",
+                "reason": ("no compile-time rendering besides the contracted " + ", ".join(".".join(x) for x in sorted(CONTRACTED_SQL_METHODS))) if not hooks
+                else "compile-time rendering outside the handler contracts (the bounded compile-pairs family exercises it): " + "; ".join(sorted(set(hooks)))})
+    return out
 
 
 PAIRS = r'''
@@ -114,6 +183,8 @@ def run_family(facts, fam, tier):
         return [{"name": "C08:canary:value-in-text-fragment", "clause": "canary", "seconds": 0.0, "canary": True,
                  "status": "discharged" if good else "undecided", "selfcheck_failed": not good,
                  "reason": "text(value) is reported as a leak, literal(value) is not" if good else "leak detector broken"}]
+    if fam == "cfg.compile-hooks":
+        return compile_hooks(facts)
     if fam == "bounded.compile-pairs":
         from contracts.orm_native import ORM_NATIVE
         script = ORM_NATIVE + PAIRS
@@ -132,7 +203,7 @@ def run_family(facts, fam, tier):
 
 
 def replay_spec(facts, r):
-    if r.get("bounded") and r.get("native_script"):
+    if r.get("native_script") and (r.get("bounded") or r.get("clause") == "cfg.compile-hooks"):
         return {"native_script": r["native_script"], "input_text": r.get("bound"),
                 "required": "identical SQL text for every value assignment; values only in the parameter list"}
     return O.replay_spec_c08(facts, r)
